@@ -608,3 +608,13 @@ PLANS["X01"] = dict(
         validate=dict(module="Trace_SigningKeys", cfg=trace_cfg()),
     )],
 )
+
+PLANS["X02"] = dict(
+    level_text="growth: unusable plugins incl. malformed plugin attributes fail closed", level_note="not a listed property", rule="24 maps x 12 situations", exhaustive=True,
+    phases=[dict(
+        name="unusable-plugins",
+        gen=dict(module="MC_Verifier_X02", cfg=mc_cfg(["Inv_FailClosed", "Inv_Emit"]), select=take_all),
+        drive=dict(driver="verifier"),
+        validate=dict(module="Trace_Verifier", cfg=trace_cfg(["verdict", "outcome", "actions", "calls"])),
+    )],
+)
